@@ -42,6 +42,9 @@ JudgeGeom(c) ==
        /\ c.mwa = IdArray(g)
        /\ c.nmwi = n
        /\ \A k \in 1..n : c.mwi[k] = W(k)),
+    \* the numbering is defined on the wells of the labware only: an identifier whose column number is 0 or beyond the
+    \* last column has no position on either device (row letters are left out: the Fluent resolver is lenient about them)
+    Cl("C08.outofrange", TRUE, \A k \in 1..Len(c.badcols) : c.badcols[k].evo = -1 /\ c.badcols[k].fluent = -1),
     \* bijection: distinct identifiers get distinct EVO numbers covering 1..n;
     \* Fluent numbers equal the real well number
     Cl("C08.bijection", TRUE,
